@@ -35,16 +35,28 @@ def load_rows(db, E, rows):
 
 
 class Forms:
-    """the three query forms of one expression"""
+    """the query forms of one expression.  Generator and lambda forms go through the decompiler: `decompiled(form)` is the
+    expression Pony actually translates (correspondence (1) is checked on it; the property oracle always uses the source)."""
     def __init__(self, E, src, params):
         self.G = dict(params); self.G.update(E=E, select=select)
         self.E = E; self.src = src
     def build(self, form):
         if form == 'generator': return eval('select(e for e in E if %s)' % self.src, self.G)
-        if form == 'lambda': return self.E.select(eval('lambda e: %s' % self.src, self.G))
+        if form == 'lambda': return eval('E.select(lambda e: %s)' % self.src, self.G)
         if form == 'string': return select('e for e in E if %s' % self.src, self.G)
-        if form == 'filter': return select('e for e in E', self.G).filter('lambda e: %s' % self.src, self.G)
+        if form == 'filter': return eval('E.select().filter(lambda e: %s)' % self.src, self.G)
+        if form == 'projection': return eval('select((e.id, %s) for e in E)' % self.src, self.G)
         raise ValueError(form)
+    def decompiled(self, form):
+        from pony.orm.decompiling import decompile
+        if form == 'generator':
+            tree = decompile(eval('(e for e in E if %s)' % self.src, self.G))[0]
+            conds = [Q.expr_of_ast(c) for c in tree.generators[0].ifs]
+            r = conds[0]
+            for c in conds[1:]: r = ('and', r, c)
+            return r
+        tree = decompile(eval('lambda e: %s' % self.src, self.G))[0]
+        return Q.expr_of_ast(tree)
 
 
 def real_conditions(forms, form):
@@ -87,57 +99,49 @@ def classify(e):
 def run_fragment(ctx, mode, n_exprs, max_depth):
     rng = ctx.rng
     gen = Q.Gen(rng, mode)
-    exprs = []
-    for i in range(n_exprs):
-        d = rng.choice([1, 2, 2, 3, 3, max_depth])
-        exprs.append(gen.expr(d))
+    exprs = [gen.expr(rng.choice([1, 2, 2, 3, 3, max_depth])) for i in range(n_exprs)]
     sch = Q.schema_json()
-    outs = ctx.driver('C01', [{'op': 'translate', 'dialect': 'sqlite', 'schema': sch, 'expr': Q.to_json(e)} for e in exprs]) if ctx.driver.ok else None
-    if outs is None: ctx.note('driver unavailable: correspondence (1), (3) skipped')
-    # data sets
     db, E = fresh_db()
     rows = [Q.random_row(rng) for _ in range(ctx.scale(14, 40))]
     # boundary rows: everything missing / zero / empty
     rows.append({'a': 0, 'c': 0, 'n': None, 'm': None, 'b': False, 'nb': None, 's': 'a', 't': '', 'ns': None})
     rows.append({'a': 1, 'c': -1, 'n': 0, 'm': 0, 'b': True, 'nb': False, 's': 'ab', 't': 'a', 'ns': ''})
     load_rows(db, E, rows)
-    py_reqs = []; ev_reqs = []; ev_meta = []
+    tr_reqs = []; tr_meta = []          # correspondence (1)
+    py_reqs = []; py_meta = []          # engine reading vs Lean py
+    ev_reqs = []; ev_meta = []          # (3)
     with db_session:
         objs = {o.id: o for o in E.select()}
         for idx, e in enumerate(exprs):
             params = Q.random_params(rng)
             s = Q.src(e)
             forms = Forms(E, s, params)
-            model = outs[idx] if outs else None
-            in_frag = bool(model and model.get('frag'))
             nonconst = Q.has_attr(e)
             ctx.count('%s:exprs' % mode); ctx.count('%s:depth:%d' % (mode, Q.depth(e)))
             if nonconst: ctx.count('%s:non-constant-conditions' % mode)
-            if in_frag: ctx.count('%s:in-theorem-fragment' % mode)
             for sub in Q.subexprs(e): ctx.count('%s:node:%s' % (mode, sub[0]))
             expected = [i + 1 for i, r in enumerate(rows) if Q.as_k(Q.py_eval(e, r, params)) == Q.TT]
-            py_reqs.append((e, params, {'op': 'py', 'expr': Q.to_json(e), 'params': params, 'rows': rows}))
+            py_reqs.append({'op': 'py', 'expr': Q.to_json(e), 'params': params, 'rows': rows}); py_meta.append((e, params))
+            tr_reqs.append({'op': 'translate', 'dialect': 'sqlite', 'schema': sch, 'expr': Q.to_json(e)}); tr_meta.append((s, 'source', None, mode))
             first_q = None
             for form in ('generator', 'lambda', 'string'):
                 q, real = real_conditions(forms, form)
-                case = [mode, form, s]
-                ctx.case(case, nontrivial=nonconst, kind='%s:%s' % (mode, form))
-                if model is not None:
-                    mc = model['conditions']
-                    if 'ok' in real:
-                        ctx.count('%s:translated' % mode)
-                        if mc.get('ok') != real['ok']:
-                            if real['error_class'] if False else True:
-                                ctx.divergence('model conditions differ from query._translator.conditions (%s form)' % form,
-                                               {'expr': s, 'form': form}, model=mc, impl=real)
-                    else:
-                        ctx.count('%s:raises:%s' % (mode, real['error']))
-                        if real['error'] == 'DecompileError' and form == 'generator':
-                            ctx.count('%s:decompile-error' % mode)
-                        elif mc.get('error') != real['error']:
-                            ctx.divergence('model and real translator disagree on the error (%s form)' % form, {'expr': s, 'form': form}, model=mc, impl=real)
+                ctx.case([mode, form, s], nontrivial=nonconst, kind='%s:%s' % (mode, form))
+                if 'ok' in real: ctx.count('%s:translated' % mode)
+                else: ctx.count('%s:%s:raises:%s' % (mode, form, real['error']))
+                # expression Pony really translates in this form
+                tex = e
+                if form != 'string':
+                    try: tex = forms.decompiled(form)
+                    except Q.Unsupported: tex = None; ctx.count('%s:decompiled-ast-outside-model' % mode)
+                    except Exception: tex = None
+                    if tex is not None and tex != e: ctx.count('%s:%s:decompiler-rewrote-expression' % (mode, form))
+                if real.get('error') in ('DecompileError', 'IndexError') and form != 'string':
+                    ctx.count('%s:decompiler-refused' % mode)       # an error, not different rows
+                elif tex is not None and not Q.closed_compound(tex):
+                    tr_reqs.append({'op': 'translate', 'dialect': 'sqlite', 'schema': sch, 'expr': Q.to_json(tex)}); tr_meta.append((s, form, real, mode))
                 if q is None: continue
-                if first_q is None: first_q = q
+                if first_q is None or form == 'string': first_q = q
                 # (2) property oracle
                 try:
                     got = sorted(o.id for o in q)
@@ -145,12 +149,12 @@ def run_fragment(ctx, mode, n_exprs, max_depth):
                     got = 'raised ' + type(ex).__name__
                 if got != expected:
                     report_violation(ctx, db, E, rows, e, params, form, got, expected)
-            if first_q is not None and outs is not None:
+            if first_q is not None:
                 try:
+                    lite = sqlite_three_valued(db, first_q, len(rows))
                     ev_reqs.append({'op': 'evalsql', 'dialect': 'sqlite', 'sql': Q.norm_ast(first_q._translator.conditions), 'params': params, 'rows': rows})
-                    ev_meta.append((s, sqlite_three_valued(db, first_q, len(rows)), expected))
+                    ev_meta.append((s, lite, expected, mode))
                 except Exception as ex:
-                    ev_reqs.pop() if len(ev_reqs) > len(ev_meta) else None
                     ctx.count('%s:sqlite-error:%s' % (mode, type(ex).__name__))
             # plain Python on rows without None: validates the Python reading itself
             for i, r in enumerate(rows[:6]):
@@ -162,26 +166,40 @@ def run_fragment(ctx, mode, n_exprs, max_depth):
                 ctx.count('%s:plain-python-checked' % mode)
                 if truth != (Q.as_k(Q.py_eval(e, r, params)) == Q.TT):
                     ctx.divergence('the Python reading differs from plain Python on a row without None', {'expr': s, 'row': r}, model=Q.as_k(Q.py_eval(e, r, params)), impl=truth)
-    if outs is not None:
-        # the engine's Python reading == Lean's `py` (reference of the theorem)
-        for (e, params, _), out in zip(py_reqs, ctx.driver('C01', [r for _, _, r in py_reqs])):
-            mine = [Q.as_k(Q.py_eval(e, r, params)) for r in rows]
-            if 'ok' not in out or [o['k'] for o in out['ok']] != mine:
-                ctx.divergence("engine's Python reading differs from Lean Model.Q.py", {'expr': Q.src(e)}, model=out, impl=mine)
-        # (3) Lean's SQL evaluator vs real SQLite on the real AST / text
-        for (s, lite, expected), out in zip(ev_meta, ctx.driver('C01', ev_reqs)):
-            ctx.count('%s:evaluator-checked' % mode)
-            if 'ok' not in out:
-                ctx.count('%s:evaluator-unsupported-node' % mode); continue
-            if out['ok'] != lite:
-                sel_model = [i + 1 for i, k in enumerate(out['ok']) if k == Q.TT]
-                sel_lite = [i + 1 for i, k in enumerate(lite) if k == Q.TT]
-                # when SQLite's own answer already violates the property the difference is the builder's (reported by oracle 2)
-                if sel_lite != expected and sel_model == expected:
-                    ctx.count('%s:evaluator-differs-where-oracle-2-fails' % mode); continue
-                bad = [(i + 1, a, b) for i, (a, b) in enumerate(zip(out['ok'], lite)) if a != b][:3]
-                ctx.divergence('Lean Sql.eval differs from real SQLite on the emitted statement', {'expr': s, 'rows(id, model, sqlite)': bad}, model=out['ok'], impl=lite)
     db.disconnect()
+    if not ctx.driver.ok:
+        ctx.note('driver unavailable: correspondence (1), evaluator validation (3) and the Lean `py` cross-check skipped'); return
+    # (1) correspondence
+    for (s, form, real, md), out in zip(tr_meta, ctx.driver('C01', tr_reqs)):
+        if form == 'source':
+            if out.get('frag'): ctx.count('%s:in-theorem-fragment' % md)
+            continue
+        mc = out['conditions']
+        ctx.count('%s:correspondence-checked' % md)
+        if 'ok' in real:
+            if mc.get('ok') != real['ok']:
+                ctx.divergence('model conditions differ from query._translator.conditions (%s form)' % form, {'expr': s, 'form': form}, model=mc, impl=real)
+        elif mc.get('error') != real['error']:
+            ctx.divergence('model and real translator disagree on the error (%s form)' % form, {'expr': s, 'form': form}, model=mc, impl=real)
+        else: ctx.count('%s:error-agreed:%s' % (md, real['error']))
+    # the engine's Python reading == Lean's `py` (reference of the theorem)
+    for (e, params), out in zip(py_meta, ctx.driver('C01', py_reqs)):
+        mine = [Q.as_k(Q.py_eval(e, r, params)) for r in rows]
+        if 'ok' not in out or [o['k'] for o in out['ok']] != mine:
+            ctx.divergence("engine's Python reading differs from Lean Model.Q.py", {'expr': Q.src(e)}, model=out, impl=mine)
+    # (3) Lean's SQL evaluator vs real SQLite on the real AST / text
+    for (s, lite, expected, md), out in zip(ev_meta, ctx.driver('C01', ev_reqs)):
+        ctx.count('%s:evaluator-checked' % md)
+        if 'ok' not in out:
+            ctx.count('%s:evaluator-unsupported-node' % md); continue
+        if out['ok'] != lite:
+            sel_model = [i + 1 for i, k in enumerate(out['ok']) if k == Q.TT]
+            sel_lite = [i + 1 for i, k in enumerate(lite) if k == Q.TT]
+            # when SQLite's own answer already violates the property the difference is the builder's (reported by oracle 2)
+            if sel_lite != expected and sel_model == expected:
+                ctx.count('%s:evaluator-differs-where-oracle-2-fails' % md); continue
+            bad = [(i + 1, a, b) for i, (a, b) in enumerate(zip(out['ok'], lite)) if a != b][:3]
+            ctx.divergence('Lean Sql.eval differs from real SQLite on the emitted statement', {'expr': s, 'rows(id, model, sqlite)': bad}, model=out['ok'], impl=lite)
 
 
 def report_violation(ctx, db, E, rows, e, params, form, got, expected):
